@@ -23,6 +23,10 @@ type c09Case struct {
 	// Prior: an ordinary directory record ["a"] with the same path id precedes the hostile record (the receiver
 	// remembers a local name per path id and substitutes it for the first element of later records)
 	Prior bool `json:"prior,omitempty"`
+	// Nested: no hostile name at all — an ordinary transfer into <scratch>/nest/2024/incoming (three empty
+	// levels) is stopped with 'delete' before scheduler step W.Stop.Step; the destination directory and the
+	// levels above it are not inside the destination
+	Nested bool `json:"nested,omitempty"`
 }
 
 type c09Params struct {
@@ -58,6 +62,39 @@ func c09Run(j vs.Job) *vs.JobResult {
 		if j.Deadline > 0 && time.Now().Unix() > j.Deadline {
 			r.Capped = "deadline"
 			break
+		}
+		if c.Nested {
+			inside := func(m map[string]string) map[string]string {
+				for k := range m {
+					if strings.HasPrefix(k, "nest/2024/incoming/") {
+						delete(m, k)
+					}
+				}
+				return m
+			}
+			var before map[string]string
+			_, res := runWorld(c.W, vs.Config{Trace: j.Replay != nil}, nil, nil, func(w *world) {
+				putFile(filepath.Join(w.root, "victim.txt"), []byte("victim: must never change"))
+				before = inside(outsideSnapshot(w.root))
+			})
+			r.Execs++
+			r.Nontrivial++
+			r.Outcomes[fmt.Sprintf("nested stop-hit=%v", res.StopHit)]++
+			v := ""
+			switch {
+			case len(res.Sched.Crash) > 0:
+				v = "panic: " + res.Sched.CrashString()
+			case res.Sched.Horizon:
+				v = "horizon reached"
+			default:
+				if d := snapDiff(before, inside(res.Outside)); d != "" {
+					v = "a transfer stopped with 'delete' created, modified or removed something outside the destination directory (the directory itself and the levels above it included): " + d
+				}
+			}
+			if v != "" {
+				r.Violate("c09:nested:"+firstWords(v, 8), c.W.String()+": "+v, nil)
+			}
+			continue
 		}
 		var before map[string]string
 		var root string
@@ -183,11 +220,21 @@ func init() {
 		ID:    "C09",
 		Level: "exploration",
 		Rule: "peer-supplied names: every list of 1..2 (quick) / 1..3 (thorough) components over {a, .., ., empty, /, /abs, a/b, a\\b, ../x, ../victim.txt, ../../victim.txt, victim.txt, 300-byte name} as JSON path list, as plain NAME (last element), as archive entry header, and as second record after an ordinary directory record with the same path id " +
-			"x overwrite x directory mode x protocol x receiving role (client downloading / server receiving); each a full transfer by the real sendFiles fed doctored records; oracle: full snapshot of everything outside the destination is unchanged",
+			"x overwrite x directory mode x protocol x receiving role (client downloading / server receiving); each a full transfer by the real sendFiles fed doctored records; oracle: full snapshot of everything outside the destination is unchanged; plus ordinary transfers into a nested, otherwise empty destination stopped with 'delete' before every 6th scheduler step (the destination directory and the levels above it must survive)",
 		Assumptions: []string{"the upload sender is the body of TrzszFilter.uploadFiles re-assembled from the product's own functions (the property is about the receiver)", "'\\' is not a separator on this platform"},
 		QuickBudget: 100, ThoroughBudget: 900, DiedIsViolation: true,
 		Jobs: func(tier string) []vs.Job {
 			cases := c09Cases(tier)
+			// ordinary transfers into a nested, otherwise empty destination, stopped with 'delete' before every 6th step
+			for _, dir := range []string{"up", "down"} {
+				for _, w := range []wParams{{Dir: dir, Tree: "small3", DstNested: true, Timeout: 3}, {Dir: dir, Tree: "dir", Directory: true, DstNested: true, Timeout: 3}, {Dir: dir, Tree: "dir", Directory: true, Overwrite: true, DstNested: true, Timeout: 3, Protocol: 2}} {
+					for step := 4; step <= 700; step += 6 {
+						c := w
+						c.Stop = &wStop{Side: "client", Delete: true, Step: step}
+						cases = append(cases, c09Case{W: c, Nested: true})
+					}
+				}
+			}
 			var jobs []vs.Job
 			const batch = 128
 			for i := 0; i < len(cases); i += batch {
